@@ -13,11 +13,14 @@
      * C01_compose_free_resolves: the pointer resolution of mi_free finds exactly the block an address lies in
        (C16 round trips), and free removes exactly it;
      * C01_refines_map: every operation commutes with abs.
+     * C01_compose_malloc_progress: the dynamic checks of the model never fail for a request served from a
+       fresh segment.
    The layer theorems (Properties/C01.v, C01span.v, C16.v) are reused, not re-proved.  What is not shown is in
    Proofs/ComposeOpen.v.  This file contains only statements closed by `exact`, Print Assumptions, Examples. *)
 From Coq Require Import NArith List Bool.
 From MiV Require Import Gen.Consts Gen.Bins Model.Arith Model.Page Model.Span Model.Compose
-  Proofs.ComposeInv Proofs.ComposeOps Proofs.ComposeSeg Proofs.ComposeResolve Proofs.ComposeProofs Proofs.ComposeRefl.
+  Proofs.ComposeInv Proofs.ComposeOps Proofs.ComposeSeg Proofs.ComposeResolve Proofs.ComposeProofs Proofs.ComposeRefl
+  Proofs.ComposeProgress.
 From MiV Require Model.Api Proofs.ApiProofs Proofs.ApiOpen.
 Import ListNotations.
 Local Open Scope N_scope.
@@ -71,6 +74,15 @@ Theorem C01_compose_discharges_answer_contract : forall f : Api.state -> N -> Ap
   ApiOpen.answer_contract_stmt f.
 Proof. exact compose_discharges_answer_contract. Qed.
 Print Assumptions C01_compose_discharges_answer_contract.
+
+(* the dynamic checks of the model (the assertions of the C code) never fail on the path new segment / new page
+   / pop: a request up to MI_LARGE_OBJ_SIZE_MAX with a segment address the OS contract allows always succeeds
+   (usable >= size by C16_bin_size_ge / C16_align_up) *)
+Theorem C01_compose_malloc_progress : forall m size base, mem_inv m -> size <= MI_LARGE_OBJ_SIZE_MAX ->
+  base_ok m base MI_SLICES_PER_SEGMENT = true ->
+  exists m' p, mmalloc m size (ChFreshSeg base) = Some (m', p).
+Proof. exact malloc_fresh_seg_progress. Qed.
+Print Assumptions C01_compose_malloc_progress.
 
 (* ---- C01_compose_live_disjoint ---- *)
 Theorem C01_compose_live_disjoint : forall m q1 b1 q2 b2, reachable m ->
